@@ -6219,7 +6219,11 @@ class Path(Shape, MutableSequence):
         for index in range(len(points)):
             start_pos = self.current_point
             last_segment = self._segments[-1] if len(self._segments) != 0 else None
-            if isinstance(last_segment, QuadraticBezier):
+            if (
+                isinstance(last_segment, QuadraticBezier)
+                and last_segment.control is not None
+                and start_pos is not None
+            ):
                 control1 = last_segment.control.reflected_across(start_pos)
             else:
                 control1 = start_pos
@@ -6261,7 +6265,11 @@ class Path(Shape, MutableSequence):
         for index in range(0, len(points), 2):
             start_pos = self.current_point
             last_segment = self._segments[-1] if len(self._segments) != 0 else None
-            if isinstance(last_segment, CubicBezier):
+            if (
+                isinstance(last_segment, CubicBezier)
+                and last_segment.control2 is not None
+                and start_pos is not None
+            ):
                 control1 = last_segment.control2.reflected_across(start_pos)
             else:
                 control1 = start_pos
